@@ -93,6 +93,13 @@ class Session(object):
         self.history.append((name, out))
         return out
 
+    async def acall(self, name, *args, **kw):
+        """the same as call() for code that already runs inside this session's event loop (concurrent tasks)"""
+        take = kw.pop("take", None)
+        out = await self._call_async(name, args, kw, take)
+        self.history.append((name, out))
+        return out
+
     def _closes(self, name, take):
         return name in CLOSING_OPS and take is None
 
